@@ -17,6 +17,9 @@ def bases(ctx):
     words = ["abc", "aab"] if not thorough else ["abc", "aab", "abca", "dddd"]
     cfgs = [Cfg(0, b"", 0, 3, 1), Cfg(2, b"", 0, 3, 1), Cfg(0, universe.DELTA_DICT, 0, 3, 1), Cfg(2, universe.DELTA_DICT, 0, 3, 1)]
     specs = [(w, c) for w in words for c in cfgs]
+    # every chunk / overall digest type once (the hash backends keep one code path - and one kind of context - per type; what a
+    # scan or an earlier request leaves behind in it is type specific)
+    specs += [("abc", Cfg(2, b"", 0, 0, 0)), ("aab", Cfg(0, universe.DELTA_DICT, 0, 0, 1)), ("abc", Cfg(2, universe.DELTA_DICT, 1, 1, 2)), ("abc", Cfg(2, b"", 0, 2, 3))]
     files = universe.lib_files(specs, ctx.seed)
     return [("lib:%s:%s" % (w, c.name()), f, universe.word_pieces(w, ctx.seed), c) for (w, c), f in zip(specs, files)]
 
